@@ -196,6 +196,17 @@ func (p *Prog) fieldKind(o Origin, base types.Type) string {
 	if last == "[]" {
 		return ""
 	}
+	if last == "OriginalVaultId" || last == "ExtendedPairId" {
+		// LockedVault reuses these two fields for lend-type positions (borrow id / lend pair id):
+		// their kind depends on the record's IsDebtCmst/type flag, so it is not decidable here
+		t := base
+		for i := 0; i < len(o.Path)-1 && t != nil; i++ {
+			t = stepField(t, o.Path[i])
+		}
+		if t != nil && namedTypeName(derefAll(t)) == "LockedVault" {
+			return ""
+		}
+	}
 	if k := kindOfName(last); k != "" {
 		return k
 	}
@@ -264,6 +275,10 @@ func paramKinds(f *ssa.Function) []string {
 			continue
 		}
 		out[i] = kindOfName(pv.Name())
+		if f.Name() == "CreateLockedVault" && (pv.Name() == "OriginalVaultId" || pv.Name() == "ExtendedPairId") {
+			out[i] = "" // the LockedVault field reuse (see fieldKind)
+			continue
+		}
 		if out[i] == "" && isIDName(pv.Name()) {
 			generic = i
 			nGeneric++
@@ -293,10 +308,20 @@ var idKindExceptions = map[string]string{
 
 // idKindRule checks every call in the operational code of the given modules.
 func idKindRule(p *Prog, r *Report, rule string, modules map[string]bool, floor int) {
+	idKindRuleX(p, r, rule, modules, nil, floor)
+}
+
+// idKindRuleX: a call is an instance when the caller is in callerMods or the (first
+// resolved) callee is in calleeMods.
+func idKindRuleX(p *Prog, r *Report, rule string, modules, calleeMods map[string]bool, floor int) {
 	r.Rule(rule, "identifier-kind agreement at calls (no borrow id where a lend id is expected, no swapped app/pair ids)", floor)
 	ops := p.operationalFns()
 	for _, fn := range p.Funcs {
-		if !ops[fn] || !modules[moduleOf(fn)] || p.isAuxFn(fn) {
+		if !ops[fn] || p.isAuxFn(fn) {
+			continue
+		}
+		callerIn := modules[moduleOf(fn)]
+		if !callerIn && len(calleeMods) == 0 {
 			continue
 		}
 		n := 0
@@ -308,6 +333,9 @@ func idKindRule(p *Prog, r *Report, rule string, modules map[string]bool, floor 
 			t := ts[0]
 			if !isComdexFn(t) || t.Signature.Recv() == nil || strings.HasSuffix(fnPkgPath(t), "/types") {
 				continue // only keeper-style methods: key constructors in types packages carry unreliable parameter names
+			}
+			if !callerIn && !calleeMods[moduleOf(t)] {
+				continue
 			}
 			pk := paramKinds(t)
 			args := callArgs(c)
